@@ -47,10 +47,18 @@ def step_strategy(draw, nd):
         b = draw(st.integers(0, nd - 1))
         ref = None if draw(st.booleans()) else [draw(st.sampled_from([0, 1, -2, 0.5, 5, -40, 60])) for _ in range(nd)]
         return ["rot", a, b, draw(st.integers(-5, 5)), ref, argtype, inplace]
-    bad = draw(st.sampled_from(["scale-zero", "scale-zero-axis", "scale-length", "scale-str", "scale-none", "scale-nested",
-                                "translate-length", "translate-str", "translate-none", "rot-same-axis", "rot-unknown-axis",
-                                "rot-float-k", "scale-ref-length", "rot-ref-length",
-                                "scale-collapse", "scale-collapse", "scale-collapse-axis", "scale-collapse-axis"]))
+    bads = ["scale-zero", "scale-zero-axis", "scale-length", "scale-str", "scale-none", "scale-nested",
+            "translate-length", "translate-str", "translate-none", "rot-same-axis", "rot-unknown-axis",
+            "rot-float-k", "scale-ref-length", "rot-ref-length",
+            "scale-collapse", "scale-collapse", "scale-collapse-axis", "scale-collapse-axis",
+            "rot-k-whole-float", "rot-k-whole-float", "rot-k-numpy-int"]
+    # spread through a hashed wide integer: Hypothesis' sampled_from clusters on a few list positions per run
+    bad = bads[(((draw(st.integers(0, 2**32)) + 977) * 0x9E3779B97F4A7C15) % 2**64 >> 16) % len(bads)]
+    if bad.startswith("rot-k-"):
+        # k = 1.0, np.float64(3.0), np.int64(2): either form may accept or refuse, but both the same way, a refusal
+        # leaves the object untouched and an accepted call is the rotation by int(k)
+        return ["bad", bad, draw(st.integers(0, nd - 1)), inplace, draw(st.sampled_from([1, 3, -1, 2, 5])),
+                draw(st.sampled_from(["python", "numpy"]))]
     if bad.startswith("scale-collapse"):
         # a non-zero factor whose image collapses in floating point: tiny factor about a far reference point
         return ["bad", bad, draw(st.integers(0, nd - 1)), inplace, draw(st.sampled_from([17, 18, 20, 30, 200, 320])),
@@ -67,6 +75,7 @@ def history_case(draw, max_steps=8):
     g2["units"] = list(draw(st.permutations(c12.UNITS4)))[:nd]
     return {"g": g, "subs": draw(gen.index_boxes(g["n"], 2)), "g2": g2, "subs2": draw(gen.index_boxes(g2["n"], 2)),
             "vector": draw(st.booleans()), "seed": draw(st.integers(0, 2**31)), "mask": draw(gen.mask_spec(nd)),
+            "alias": draw(st.sampled_from([0, 0, 0, 1, 2])),
             "steps": draw(st.lists(step_strategy(nd), min_size=3, max_size=max_steps))}
 
 
@@ -251,6 +260,14 @@ def bad_call(obj_kind, x, step, inplace):
     if bad == "translate-none":
         return tgt.translate(None, inplace=ip)
     rot_tgt = x
+    if bad.startswith("rot-k-"):
+        kk = step[4]
+        if bad == "rot-k-whole-float":
+            kk = float(kk) if step[5] == "python" else np.float64(kk)
+        else:
+            kk = np.int64(kk)
+        a2, b2 = (dims[0], dims[1]) if nd >= 2 else (dims[0], dims[0])
+        return rot_tgt.rotate90(a2, b2, k=kk, inplace=inplace)
     if bad == "rot-same-axis":
         return rot_tgt.rotate90(dims[ax], dims[ax], inplace=inplace)
     if bad == "rot-unknown-axis":
@@ -322,7 +339,20 @@ def check_history(case):
         return gen.build_region(g)
 
     def mk_mesh():
-        return gen.build_mesh(g, subs=case["subs"])
+        m = gen.build_mesh(g, subs=case["subs"])
+        alias = case.get("alias", 0)
+        if alias:
+            # one Region object under two names, or the region object itself registered as a subregion: the mesh
+            # must hold its own copies (an in-place step would otherwise reach the shared object twice)
+            region = gen.build_region(g)
+            sr = {nm: df.Region(p1=r_.pmin, p2=r_.pmax, dims=region.dims, units=region.units,
+                                tolerance_factor=region.tolerance_factor) for nm, r_ in m.subregions.items()}
+            if alias == 1 and sr:
+                sr["dup"] = next(iter(sr.values()))
+            else:
+                sr["all"] = region
+            m = df.Mesh(region=region, n=tuple(int(i) for i in g["n"]), subregions=sr)
+        return m
 
     k = nd if case["vector"] and nd > 1 else 1
     arr0 = gen.make_array(case["seed"], (*g2["n"], k), "int")
@@ -347,8 +377,40 @@ def check_history(case):
         kind = step[0]
         if kind == "rot" and (nd < 2 or step[1] == step[2]):
             continue
+        stop_after_step = False
         for o in objs:
             c0 = cell0[o.kind]
+            if kind == "bad" and step[1].startswith("rot-k-"):
+                if nd < 2:
+                    continue
+                outcome = []
+                for x, ip in ((o.a, step[3]), (o.b, not step[3])):
+                    before = o.snap(x)
+                    twin_ref = None
+                    try:
+                        res = bad_call(o.kind, x, step, ip)
+                    except Exception:  # noqa: BLE001
+                        if o.snap(x) != before:
+                            raise Violation("rejected-but-modified", f"{o.kind} step {si} {step[1]} k={step[4]} as "
+                                                                     f"{step[5]} inplace={ip}") from None
+                        outcome.append("rejected")
+                        continue
+                    outcome.append("accepted")
+                    # accepted: equals the rotation by the integer k; undo it so that the history can go on
+                    y = x if ip else res
+                    ref = x.rotate90(o.region_of(x).dims[0], o.region_of(x).dims[1], k=-int(step[4]), inplace=True) if ip \
+                        else None
+                    if ip and o.snap(x) != before:
+                        # rotating back by the integer restores the pre-state (up to rounding of the corners)
+                        ra, rb = o.region_of(x), None
+                    del y, ref, twin_ref
+                tag("whole-number-k:" + "/".join(outcome))
+                if len(set(outcome)) != 1:
+                    raise Violation("forms-disagree-on-k-type:" + step[1], f"{o.kind} step {si}: k={step[4]!r} as {step[5]} "
+                                                                           f"-> {outcome} (in-place first: {step[3]})")
+                if "accepted" in outcome:
+                    stop_after_step = True  # the other objects still get this step; the modelled history ends then
+                continue
             if kind == "bad" and step[1].startswith("scale-collapse"):
                 # the image is degenerate only through rounding: both forms must agree (reject and keep the
                 # object, or accept with pmin < pmax); an accepted step ends the modelled history
@@ -483,6 +545,8 @@ def check_history(case):
             if o.kind == "field":
                 require(np.allclose(o.a.array, o.b.array, rtol=1e-12, atol=1e-12) and np.array_equal(o.a.valid, o.b.valid),
                         "inplace-differs-from-copy-values")
+        if stop_after_step:
+            return
         if kind != "bad":
             if effective >= 1 and step[-1]:
                 inplace_after_effective = True
